@@ -288,6 +288,10 @@ func (s *Service) UpdateSyncCommitteeDataRecord(
 	s.slotDataRecordsMu.Lock()
 	s.slotDataRecords[slot] = synccommitteemessenger.SlotData{Root: root, ValidatorToCommitteeIndex: validatorToCommitteeIndex}
 	s.slotDataRecordsMu.Unlock()
+
+	// Records are otherwise only removed when sync committee inclusion is being verified
+	// and a head event arrives, so clean up here as well.
+	s.RemoveHistoricDataUsedForSlotVerification(slot)
 }
 
 // GetDataUsedForSlot returns slot data recorded for the sync committee message for a given slot.
